@@ -27,7 +27,12 @@ rule = ("scripts = 'n begin', node ops, 'n end' (destroy everything, every byte 
 assumptions = [
     "calls respect the GNode-style preconditions of the insert functions: the inserted node is a root without "
     "siblings and not an ancestor of the position (both drivers skip other calls as 'precond'); "
-    "mpt_node_move is called with lists from different top-level structures",
+    "mpt_node_move is called with lists from different top-level structures; the list reference handed to it is the "
+    "parent's child link when the node is a first child and a variable of the driver otherwise, its value after the "
+    "call (first element that stayed, or NULL) is part of the compared verdict (the model does not store the caller's "
+    "variable, its line carries the specification's value)",
+    "mpt_gnode_swap is called with two nodes none of which lies below the other; mpt_gnode_relink is called on sound "
+    "structures and ('relink x scramble') after the drivers wiped every parent/predecessor link below the node",
     "malloc fails only where the scripts inject it ('n fail k' before a clone op); the model decides refusal by the "
     "number of allocations of the clone (value, node, name longer than the node's inline space)",
     "node names are unnamed or short UTF-8 texts without NUL (identifier comparison = equality of names); "
